@@ -739,7 +739,7 @@ Proof.
   - cbn [op_ok] in OK. apply andb_true_iff in OK. destruct OK as [Fo Fu].
     split. + apply end_flush_core; auto. + exact W.
   - cbn [op_ok] in OK. split. + apply compact_core; auto. + exact W.
-  - cbn [op_ok] in OK. apply andb_true_iff in OK. destruct OK as [P NB].
+  - cbn [op_ok] in OK. apply andb_true_iff in OK. destruct OK as [OK _]. apply andb_true_iff in OK. destruct OK as [P NB].
     split. + apply merge_ooo_core; auto. destruct b; [discriminate | congruence].
     + unfold merge_ooo. destruct (filter (in_grp g) (ooo L)); exact W.
   - cbn [op_ok] in OK. apply andb_true_iff in OK. destruct OK as [Ad _].
